@@ -81,7 +81,7 @@ TABLE = {
     ("<luv::Luv<Wp, T> as FromColorUnclamped<xyz::Xyz<Wp, T>>>", "w.y"): "white point luminance is a positive literal",
     ("<xyz::Xyz<Wp, T> as FromColorUnclamped<luv::Luv<Wp, T>>>", "w.x + from_f64(15.0) * w.y + from_f64(3.0) * w.z"): "white point tristimulus values are positive literals",
     ("<xyz::Xyz<Wp, T> as FromColorUnclamped<luv::Luv<Wp, T>>>", "from_f64(13.0) * color.l"): "after the early return for l < 1e-5: 13 l > 0",
-    ("<xyz::Xyz<Wp, T> as FromColorUnclamped<luv::Luv<Wp, T>>>", "v_prime"): "v' = v/(13 l) + v_ref is zero only for imaginary colours (v = -13 l v_ref, outside the documented Luv range for every l >= 1e-5 reachable from a real XYZ); known limitation",
+    # (`/ v_prime` in Xyz<-Luv is NOT listed: v' = v/(13 l) + v_ref is zero for in-range imaginary colours - known finding F9)
     ("xyz::Xyz::<Wp, T>::normalize", "y"): "documented precondition of the (crate-private) helper: used with non-black colours",
     # ---- Ok spaces (after the early returns for zero chroma / l = 0 / l = 1)
     ("<okhsl::Okhsl<T> as FromColorUnclamped<oklab::Oklab<T>>>", "cs.mid"): "C_mid > 0 for 0 < L < 1 (early return handles L = 0, L = 1, C = 0)",
@@ -418,7 +418,7 @@ def sites(F):
 def run(F, rep, tier="quick", extra=None, only=None):
     rep.trusted += ["rustc name resolution / type check", "the reviewed reasons of the TABLE in rules/c07.py (one line per unguarded divisor)",
                     "IsValidDivisor = is_normal (C17 checks the SIMD impls agree)"]
-    n_const = n_guard = n_table = 0
+    n_const = n_guard = n_table = n_open = 0
     used = set()
     seen_guard = set()
     for b, flow, n, parents, div, kind in sites(F):
@@ -447,6 +447,7 @@ def run(F, rep, tier="quick", extra=None, only=None):
             used.add(hit)
             n_table += 1
             continue
+        n_open += 1
         rep.fail("DIV", "%s: %s %s" % (key, kind, r),
                  "division by `%s` is neither by a non-zero constant, nor dominated by an is_valid_divisor()/!= 0 test of that divisor, nor in the reviewed table: "
                  "a valid colour on a degenerate boundary can make it zero (NaN / infinity)" % r, loc)
@@ -454,7 +455,7 @@ def run(F, rep, tier="quick", extra=None, only=None):
     for fk, dk in stale:
         rep.fail("DIV-TABLE", "%s: %s" % (fk, dk), "reviewed table entry matches no division site any more (the code changed: re-review)")
     rep.ob("DIV", "division sites", True, "%d constant, %d guarded by is_valid_divisor / != 0 on the same divisor, %d justified in the reviewed table" % (n_const, n_guard, n_table))
-    rep.floor("division sites in the anchored files", n_const + n_guard + n_table, 192)
+    rep.floor("division sites in the anchored files", n_const + n_guard + n_table + n_open, 192)
     rep.floor("guarded division sites", n_guard, 43)
     check_panics(F, rep)
     return {"level": "other", "explanation": EXPLANATION}
